@@ -98,3 +98,24 @@ def g1_torsion_pairs(rng, n):
         x, y = g1_uncompressed_on_curve(rng)
         out.append((g1_compress(x, y), g1_compress(x, FP - y)))
     return out
+
+def g1_decompress(b):
+    """(x, y) of a compressed non-identity G1 encoding (no subgroup check)"""
+    x = int.from_bytes(bytes([b[0] & 0x1f]) + b[1:], "big"); y = fp_sqrt((x * x * x + 4) % FP)
+    if y is None: return None
+    big = y > (FP - 1) // 2
+    if bool(b[0] & 0x20) != big: y = FP - y
+    return x, y
+def g1_add_affine(p, q):
+    """affine addition on y^2 = x^3 + 4 over Fp (p != -q)"""
+    (x1, y1), (x2, y2) = p, q
+    if x1 == x2 and (y1 + y2) % FP == 0: return None
+    lam = (3 * x1 * x1) * pow(2 * y1, -1, FP) % FP if (x1, y1) == (x2, y2) else (y2 - y1) * pow(x2 - x1, -1, FP) % FP
+    x3 = (lam * lam - x1 - x2) % FP
+    return x3, (lam * (x1 - x3) - y1) % FP
+def g1_plus_torsion(enc, k=1):
+    """the compressed encoding of P + k*T for the order-3 point T = (0, 2): the same element of the quotient by the cofactor torsion, outside G1"""
+    pt = g1_decompress(enc)
+    if pt is None: return None
+    r = g1_add_affine(pt, (0, 2 if k == 1 else FP - 2))
+    return None if r is None else g1_compress(*r)
